@@ -29,7 +29,7 @@ ASSUMPTIONS = ['KT: numbers are exact decimal reals (Decimal(str(x)) is the shor
 TRUSTED = ['kt/kt.py, kt/models_math.py (Decimal, round, localcontext, math.trunc/ceil/floor models)', 'library contract table in props/c16.py']
 
 BIG = 10 ** 15
-BIG2 = 10 ** 25
+BIG2 = 10 ** 60
 
 
 def norm(leaf, model):
@@ -296,7 +296,7 @@ def kt_obs(tier):
                             models=['kt/models_math.py: Decimal(str(x)), localcontext().rounding, round(Decimal, n), float'])
             return spec
         direction = {'ROUND': 'half away from zero', 'ROUNDUP': 'away from zero', 'ROUNDDOWN': 'toward zero'}[kind]
-        obs.append(kt_ob(f'c16.{kind}', mk(kind), family='c16.rounding', bounds=f'{kind}(q, n): every real q in -10^25..10^25 (exact decimal value), every digit count n in -10..10: decimal rounding {direction}, never an exception (decimal context precision modelled)', cost=30, timeout=300))
+        obs.append(kt_ob(f'c16.{kind}', mk(kind), family='c16.rounding', bounds=f'{kind}(q, n): every real q in -10^60..10^60 (exact decimal value), every digit count n in -10..10: decimal rounding {direction}, never an exception (decimal context precision modelled)', cost=30, timeout=300))
 
     def sp_int():
         f = inspect.unwrap(XM.INT)
